@@ -394,6 +394,12 @@ func czCompare(cs *czCase, pp *czPrepared, answer string, o *core.Outcome) {
 		o.Fail = f
 		return
 	}
+	if other {
+		// the two trees also differ by a rewrite cert does not model, so the walk may be misaligned: the
+		// rejected site is counted, not reported (a differing input would have been a violation above)
+		o.Buckets = append(o.Buckets, "not-certified-beside-other-rewrite")
+		return
+	}
 	o.Fail = &core.Failure{Kind: "correspondence-break", Key: "Cz:not-certified",
 		Summary:  fmt.Sprintf("the engine made a loop atomic where the proved certifier cannot justify it: pattern %q opts %d", cs.Pattern, cs.Opts),
 		Expected: "every auto-atomic / ending decision of the engine certified by Lean's cert", Got: strings.Join(alarms, " ")}
